@@ -54,9 +54,12 @@ class DecPart(Part):
         consumed_items = 0
         # per publish: pieces add up to the declared size, exactly one final piece
         cur = None
+        max_size = cfg[0] if cfg else 0
         for it in f:
             if not it:
                 continue
+            if it[0] in ("1", "2") and max_size and len(it) > 1 and int(it[1]) > max_size:
+                return "0,13"                             # a frame above the inbound maximum was delivered
             if it[0] == "2":
                 if cur is not None:
                     return "0,5"                          # previous publish not finished (leak / missing final)
@@ -350,6 +353,7 @@ DEC_CLAUSES = {
     "8": "the final flag of a payload piece is wrong (pieces do not add up to the declared size)",
     "9": "unparsable publish item",
     "10": "a non-final payload piece is smaller than min_chunk_size",
+    "13": "a frame whose Remaining Length exceeds the configured inbound maximum was delivered instead of rejected",
 }
 
 
